@@ -29,9 +29,13 @@ class Fails:
     def __init__(self, ctx):
         self.ctx = ctx; self.d = {}; self.lock = threading.Lock()
     def add(self, key, detail, replay):
+        if R.SKIPPED in key:        # a line that was not run because the driver had died too often before it
+            with self.lock: self.skipped = getattr(self, "skipped", 0) + 1
+            return
         with self.lock:
             self.d.setdefault(key, []).append((detail, replay))
     def flush(self):
+        if getattr(self, "skipped", 0): self.ctx.add(driver_lines_not_run_after_crash_cap=self.skipped)
         for key, lst in sorted(self.d.items()):
             detail = "%d occurrence(s); first:\n%s" % (len(lst), "\n---\n".join(x[0] for x in lst[:MAX_PER_KEY]))
             self.ctx.fail(key, detail, [x[1] for x in lst[:MAX_PER_KEY]])
@@ -424,5 +428,5 @@ def run(ctx):
         "digest -> e: ECDSA per SEC 1 4.1.3 (leftmost bits), GOST per 34.10-2012 (alpha mod q, 0 -> 1); where the standards are silent (GOST digest longer than q, little-endian buffers longer than the field) both natural readings are admitted (Ecdsa!HashESet)",
         "random octets -> secret: both documented maps are admitted (Ecdsa!SecretSet); a call may only fail where no admitted secret yields a signature",
         "which non-zero code a rejection returns is not compared; with validation off (EC_DISABLE_PUB_KEY_CHK, or the bn_t level API) the verdict for an invalid public key is unspecified",
-        "EC_PF_TWIN_MULT_ALGO_JOINT and unknown-point windows wider than the fixed-point window are not built here (findings of C01/C02)",
+        "unknown-point windows wider than the fixed-point window are not built here (finding of C02)",
     ]
